@@ -80,6 +80,14 @@ Prescan ==
             ELSE pc' = pc /\ i' = i + 1 /\ reply' = reply
     /\ UNCHANGED <<rrs, ser, msg, snap, touched, n>>
 
+\* a server that does not take a zone-class RR without RDATA (UpdateOps!EmptyAdd): FORMERR, and
+\* this has to happen here, before anything is applied
+PrescanEmptyRdata ==
+    /\ pc = "scan" /\ i <= Len(msg.upd)
+    /\ ScanErrors(msg.upd[i], Apex) = {} /\ EmptyAdd(msg.upd[i])
+    /\ pc' = "rej" /\ reply' = "FORMERR"
+    /\ UNCHANGED <<rrs, ser, msg, i, snap, touched, n>>
+
 ApplyRR ==
     /\ pc = "apply" /\ i <= Len(msg.upd)
     /\ \E nx \in AllowedRR(Cur, msg.upd[i], Apex) :
@@ -103,7 +111,7 @@ Deliver ==
     /\ pc' = "idle" /\ n' = n + 1
     /\ UNCHANGED <<rrs, ser, msg, i, snap, touched, reply>>
 
-Next == Begin \/ CheckPrereq \/ PrereqValues \/ Prescan \/ ApplyRR \/ Finish \/ Deliver
+Next == Begin \/ CheckPrereq \/ PrereqValues \/ Prescan \/ PrescanEmptyRdata \/ ApplyRR \/ Finish \/ Deliver
 Spec == Init /\ [][Next]_vars
 
 -----------------------------------------------------------------------------
